@@ -321,6 +321,9 @@ def judge(cmd, ans, seed):
             mn, ops = parse_inst(s)
             m.step(mn, ops)
         spb = m.regs[0][spid]
+        above = [a for a in m.written if a >= sp0]
+        if above:
+            out.append((key("prolog-writes-into-caller-frame"), desc("the prolog stores at entry sp %+d: the return address / the caller's frame (at or above the entry sp) is overwritten" % (min(above) - sp0))))
         # ---- inside the body
         fa = r["final_align"]
         uses_stack = lsize > 0 or csize > 0 or r["ex_size"] > 0 or bool(attrs & 2)
